@@ -51,3 +51,11 @@ Theorem listeners_rank_respected_partial :
           Gen.LockProg.lock_paths = true.
 Proof. exact (conj eq_refl (conj eq_refl eq_refl)). Qed.
 Print Assumptions listeners_rank_respected_partial.
+
+(* no lock is held across a blocking operation: on every control-flow path of every entry point
+   and background goroutine (callees inlined), no channel send or receive, no select without a
+   default and no WaitGroup wait happens while a lock of these classes is held (recomputed
+   against the current source). This is the premise of the LTS: a thread blocks only on locks. *)
+Theorem no_blocking_under_lock : Gen.LockProg.blocking_under_lock = [].
+Proof. reflexivity. Qed.
+Print Assumptions no_blocking_under_lock.
